@@ -218,6 +218,7 @@ structure Core (o : Opts) (v : View) (c : Caps) : Prop where
   sA : c.osc176 = true → JustA v.ins
   ew : (c.explicitWidth = true ↔ ∃ x, v.probeGot = some x ∧ wrap64 (x.2 - 1) = 1) ∧ c.noZWJ = false
   done : (v.phase = .done ∨ v.phase = .ready) → v.timedOut = false → seenDA v.ins = true ∧ (v.dropped = 0 → DoneP o v c)
+  dk : o.disableKitty = true → c.kittyKeyboard = false
 
 structure InvV (o : Opts) (v : View) : Prop where
   noDA : active v.phase → seenDA v.ins = false → v.np.any isDA = false
@@ -264,7 +265,7 @@ theorem seenDA_append (ins : List Seq) (s : Seq) : seenDA (ins ++ [s]) = (seenDA
 
 theorem core_input (o : Opts) (v : View) (c : Caps) (s : Seq) (npn : List Event) (h : Core o v c) :
     Core o { v with np := npn, ins := v.ins ++ [s] } c := by
-  refine ⟨fun i hi => JustI_mono o v.ins s i (h.sI i hi), fun ha => JustA_mono v.ins s (h.sA ha), h.ew, ?_⟩
+  refine ⟨fun i hi => JustI_mono o v.ins s i (h.sI i hi), fun ha => JustA_mono v.ins s (h.sA ha), h.ew, ?_, h.dk⟩
   intro hp hto
   obtain ⟨hs, hd⟩ := h.done hp hto
   refine ⟨by simp [seenDA_append, hs], fun h0 => ?_⟩
@@ -445,7 +446,7 @@ theorem invV_shrink (o : Opts) (v : View) (np' : List Event) (d' : Nat) (hd : d'
   · intro _ h0; exact absurd h0 hd
   · intro _ h0; exact absurd h0 hd
   · exact core_of o v { v with np := np', dropped := d' } rfl
-      (fun c hc => ⟨hc.sI, hc.sA, hc.ew, fun hp hto => ⟨(hc.done hp hto).1, fun h0 => absurd h0 hd⟩⟩) rfl rfl h.core
+      (fun c hc => ⟨hc.sI, hc.sA, hc.ew, fun hp hto => ⟨(hc.done hp hto).1, fun h0 => absurd h0 hd⟩, hc.dk⟩) rfl rfl h.core
 
 theorem wrap64_probe (c : Int) (h1 : -9223372036854775808 ≤ c) (h2 : c < 9223372036854775808) :
     wrap64 (c - 1) = 1 ↔ c = 2 := by
@@ -461,6 +462,8 @@ theorem invV_probeRecv (o : Opts) (v : View) (x : Int × Int) (hp : v.phase = .p
     split <;> rfl
   have hrgb : (if wrap64 (x.2 - 1) == 1 then { v.caps with explicitWidth := true } else v.caps).rgb = v.caps.rgb := by
     split <;> rfl
+  have hkk : (if wrap64 (x.2 - 1) == 1 then { v.caps with explicitWidth := true } else v.caps).kittyKeyboard = v.caps.kittyKeyboard := by
+    split <;> rfl
   have hcore := h.core
   rw [if_neg (by rw [hp]; decide)] at hcore
   have hal : active Phase.loop := Or.inr rfl
@@ -471,7 +474,7 @@ theorem invV_probeRecv (o : Opts) (v : View) (x : Int × Int) (hp : v.phase = .p
   · intro _ h0 hj; simp only [h176]; exact h.cA ha h0 hj
   · rw [if_neg (by simp)]
     refine ⟨fun i hi => hcore.sI i (by rw [hI] at hi; exact hi), fun h1 => hcore.sA (by rw [h176] at h1; exact h1), ?_,
-      fun hph => by rcases hph with hph | hph <;> cases hph⟩
+      (fun hph => by rcases hph with hph | hph <;> cases hph), (fun hd => by rw [hkk]; exact hcore.dk hd)⟩
     have hn := h.probe hp
     have hew : v.caps.explicitWidth = false := by
       cases hx : v.caps.explicitWidth
@@ -497,7 +500,7 @@ theorem invV_probeTimeout (o : Opts) (v : View) (hp : v.phase = .probe) (h : Inv
   refine ⟨fun _ => h.noDA ha, fun _ => h.hasDA ha, fun _ => h.psI ha, fun _ => h.psA ha, fun _ => h.cI ha, fun _ => h.cT ha,
     fun _ => h.cA ha, fun _ => h.tid ha, (by intro hc; cases hc), fun _ => h.notTO ha, ?_⟩
   rw [if_neg (by simp)]
-  exact ⟨hcore.sI, hcore.sA, hcore.ew, fun hph => by rcases hph with hph | hph <;> cases hph⟩
+  exact ⟨hcore.sI, hcore.sA, hcore.ew, (fun hph => by rcases hph with hph | hph <;> cases hph), hcore.dk⟩
 
 theorem invV_loopTimeout (o : Opts) (v : View) (hp : v.phase = .loop) (h : InvV o v) :
     InvV o { v with phase := .done, timedOut := true } := by
@@ -508,7 +511,7 @@ theorem invV_loopTimeout (o : Opts) (v : View) (hp : v.phase = .loop) (h : InvV 
     fun ha => absurd ha hna, fun ha => absurd ha hna, fun ha => absurd ha hna, fun ha => absurd ha hna,
     (by intro hc; cases hc), fun ha => absurd ha hna, ?_⟩
   rw [if_neg (by simp)]
-  exact ⟨hcore.sI, hcore.sA, hcore.ew, fun _ hto => by cases hto⟩
+  exact ⟨hcore.sI, hcore.sA, hcore.ew, (fun _ hto => by cases hto), hcore.dk⟩
 
 theorem invV_quirks (o : Opts) (v : View) (hp : v.phase = .done) (h : InvV o v) :
     InvV o { v with caps := applyQuirks o v.termID v.caps, phase := .ready } := by
@@ -519,7 +522,7 @@ theorem invV_quirks (o : Opts) (v : View) (hp : v.phase = .done) (h : InvV o v) 
     fun ha => absurd ha hna, fun ha => absurd ha hna, fun ha => absurd ha hna, fun ha => absurd ha hna,
     (by intro hc; cases hc), fun ha => absurd ha hna, ?_⟩
   rw [if_pos rfl]
-  refine ⟨v.caps, rfl, hcore.sI, hcore.sA, hcore.ew, fun _ hto => ?_⟩
+  refine ⟨v.caps, rfl, hcore.sI, hcore.sA, hcore.ew, fun _ hto => ?_, hcore.dk⟩
   obtain ⟨h1, h2⟩ := hcore.done (Or.inl hp) hto
   exact ⟨h1, fun h0 => ⟨(h2 h0).cI, (h2 h0).cT, (h2 h0).cA, (h2 h0).tid⟩⟩
 
@@ -539,7 +542,7 @@ theorem invV_loopDA (o : Opts) (v : View) (np' : List Event) (hp : v.phase = .lo
     fun ha => absurd ha hna, fun ha => absurd ha hna, fun ha => absurd ha hna, fun ha => absurd ha hna,
     (by intro hc; cases hc), fun ha => absurd ha hna, ?_⟩
   rw [if_neg (by simp)]
-  refine ⟨hcore.sI, hcore.sA, hcore.ew, fun _ _ => ⟨?_, fun h0 => ⟨?_, ?_, ?_, ?_⟩⟩⟩
+  refine ⟨hcore.sI, hcore.sA, hcore.ew, fun _ _ => ⟨?_, fun h0 => ⟨?_, ?_, ?_, ?_⟩⟩, hcore.dk⟩
   · cases hs : seenDA v.ins
     · have := h.noDA ha hs; rw [hnp] at this; simp [isDA] at this
     · rfl
@@ -569,6 +572,7 @@ theorem invV_loopEv (o : Opts) (v : View) (e : Event) (np' : List Event) (c' : C
     (H5 : (v.caps.osc176 = true ∨ isAppID e = true) → c'.osc176 = true)
     (H6 : c'.explicitWidth = v.caps.explicitWidth ∧ c'.noZWJ = v.caps.noZWJ)
     (H7 : lastTermID [e] v.termID = t')
+    (H8 : o.disableKitty = true → c'.kittyKeyboard = v.caps.kittyKeyboard)
     (h : InvV o v) :
     InvV o { v with np := np', caps := c', termID := t' } := by
   have ha : active v.phase := Or.inr hp
@@ -614,7 +618,7 @@ theorem invV_loopEv (o : Opts) (v : View) (e : Event) (np' : List Event) (c' : C
     exact this
   · have hph : ¬ v.phase = Phase.ready := by rw [hp]; decide
     simp only [hph, if_false]
-    refine ⟨?_, ?_, ?_, fun hph' => by rw [hp] at hph'; rcases hph' with hph' | hph' <;> cases hph'⟩
+    refine ⟨?_, ?_, ?_, (fun hph' => by rw [hp] at hph'; rcases hph' with hph' | hph' <;> cases hph'), (fun hd => by rw [H8 hd]; exact hcore.dk hd)⟩
     · intro j hj
       rcases H1 j hj with h1 | h1
       · exact hcore.sI j h1
@@ -852,7 +856,7 @@ theorem inv_next (p : Params) (o : Opts) (st st' : St) (l : VaxisModel.Model.Sta
                 rcases hx with hx | hx
                 · rw [collect_osc176]; exact hx
                 · simp [isAppID] at hx)
-              (collect_ew _ _ i) rfl h.v
+              (collect_ew _ _ i) rfl (fun hd => by rw [hd]; cases i <;> rfl) h.v
             simpa [view, np, setCaps] using this
           | appID a =>
             simp [collectEv] at hce
@@ -864,7 +868,7 @@ theorem inv_next (p : Params) (o : Opts) (st st' : St) (l : VaxisModel.Model.Sta
               (fun j hj => Or.inl (by cases j <;> exact hj))
               (fun j hj => by cases j <;> exact hj)
               (fun j hj => by simp [note] at hj)
-              (fun _ => Or.inr rfl) (fun _ => rfl) ⟨rfl, rfl⟩ rfl h.v
+              (fun _ => Or.inr rfl) (fun _ => rfl) ⟨rfl, rfl⟩ rfl (fun _ => rfl) h.v
             simpa [view, np, setCaps] using this
           | terminalID a =>
             simp [collectEv] at hce
@@ -880,7 +884,7 @@ theorem inv_next (p : Params) (o : Opts) (st st' : St) (l : VaxisModel.Model.Sta
                 rcases hx with hx | hx
                 · exact hx
                 · simp [isAppID] at hx)
-              ⟨rfl, rfl⟩ rfl h.v
+              ⟨rfl, rfl⟩ rfl (fun _ => rfl) h.v
             simpa [view, np, setCaps] using this
           | _ =>
             simp [collectEv] at hce
@@ -891,5 +895,76 @@ theorem inv_next (p : Params) (o : Opts) (st st' : St) (l : VaxisModel.Model.Sta
               simp [np, isNotice, Event.userVisible]
             rw [hv]; exact h.v
     · simp at hn
+
+/-! ### runs -/
+
+theorem inv_init (o : Opts) : Inv o (St.init o) := by
+  refine ⟨by simp [St.init], ?_⟩
+  have hv : view (St.init o) = View.mk (if o.colorterm then [note .truecolor] else []) ({} : Caps) 0 [] [] none .probe false := by
+    simp only [view, np, St.init, posted, List.append_nil]
+    cases o.colorterm <;> simp [isNotice, Event.userVisible, note]
+  rw [hv]
+  refine ⟨?_, ?_, ?_, ?_, ?_, ?_, ?_, ?_, fun _ => rfl, fun _ => rfl, ?_⟩
+  · intro _ _; cases o.colorterm <;> simp [isDA, DA, note]
+  · intro _ hs; simp [seenDA] at hs
+  · intro _ i hi
+    cases hc : o.colorterm
+    · simp [hc, upto] at hi
+    · simp [hc, upto, isDA, DA, note] at hi
+      subst hi
+      exact Or.inr ⟨rfl, hc⟩
+  · intro _ hi; cases hc : o.colorterm <;> simp [hc, upto, isDA, DA, note, isAppID] at hi
+  · intro _ _ i _ hadv; simp [insPre, adv] at hadv
+  · intro _ _ hc; left; simp [hc, upto, isDA, DA, note]
+  · intro _ _ hj; simp [JustA, insPre] at hj
+  · intro _ _; cases o.colorterm <;> simp [upto, isDA, DA, note, lastTermID, termIDOf, insPre]
+  · rw [if_neg (by simp)]
+    exact ⟨fun i hi => by cases i <;> simp [hasI] at hi, fun h => by simp at h, ⟨by simp, rfl⟩,
+      (fun hp => by rcases hp with hp | hp <;> cases hp), (fun _ => rfl)⟩
+
+theorem inv_run (p : Params) (o : Opts) : ∀ (ls : List VaxisModel.Model.Startup.Label) (st st' : St),
+    Inv o st → VaxisModel.Model.Startup.run p o st ls = some st' → Inv o st'
+  | [], st, st', h, hr => by simp [VaxisModel.Model.Startup.run] at hr; subst hr; exact h
+  | l :: ls, st, st', h, hr => by
+      simp only [VaxisModel.Model.Startup.run] at hr
+      split at hr
+      · rename_i st1 hn
+        exact inv_run p o ls st1 st' (inv_next p o st st1 l h hn) hr
+      · simp at hr
+
+theorem ins_next (p : Params) (o : Opts) (st st' : St) (l : VaxisModel.Model.Startup.Label)
+    (hn : VaxisModel.Model.Startup.next p o st l = some (.ok st')) : st'.ins = st.ins ++ inputsOf [l] := by
+  cases l <;> simp only [VaxisModel.Model.Startup.next, liftSys] at hn
+  all_goals (repeat' split at hn)
+  all_goals (first | (simp at hn; done) | (simp at hn; subst hn; simp [inputsOf]))
+
+theorem inputsOf_cons (l : VaxisModel.Model.Startup.Label) (ls : List VaxisModel.Model.Startup.Label) :
+    inputsOf (l :: ls) = inputsOf [l] ++ inputsOf ls := by
+  cases l <;> simp [inputsOf]
+
+theorem ins_run (p : Params) (o : Opts) : ∀ (ls : List VaxisModel.Model.Startup.Label) (st st' : St),
+    VaxisModel.Model.Startup.run p o st ls = some st' → st'.ins = st.ins ++ inputsOf ls
+  | [], st, st', hr => by simp [VaxisModel.Model.Startup.run] at hr; subst hr; simp [inputsOf]
+  | l :: ls, st, st', hr => by
+      simp only [VaxisModel.Model.Startup.run] at hr
+      split at hr
+      · rename_i st1 hn
+        rw [ins_run p o ls st1 st' hr, ins_next p o st st1 l hn, List.append_assoc, ← inputsOf_cons]
+      · simp at hr
+
+theorem insPre_split (ins : List Seq) (h : seenDA ins = true) :
+    ∃ A d B, ins = A ++ d :: B ∧ isDA1 d = true ∧ (∀ s ∈ A, isDA1 s = false) ∧ insPre ins = A ++ [d] := by
+  induction ins with
+  | nil => simp [seenDA] at h
+  | cons a t ih =>
+    by_cases ha : isDA1 a = true
+    · exact ⟨[], a, t, rfl, ha, by simp, by simp [insPre, ha]⟩
+    · simp only [seenDA, List.any_cons, ha, Bool.false_or] at h
+      obtain ⟨A, d, B, h1, h2, h3, h4⟩ := ih h
+      refine ⟨a :: A, d, B, by simp [h1], h2, ?_, by simp [insPre, ha, h4]⟩
+      intro s hs
+      rcases List.mem_cons.mp hs with rfl | hs
+      · simpa using ha
+      · exact h3 s hs
 
 end VaxisModel.Lemmas.Startup
